@@ -26,5 +26,9 @@ ec5f710 C12
 ed99402 C03
 4ce3cba C12
 27b538b C09
+c86b24e C13
+25a3181 C17
+85e24c5 C03
+66bab97 C19
 LIST
 (cd sim && cargo build --offline --profile sim >/dev/null 2>&1)
